@@ -59,11 +59,25 @@ def baseNames (o : Opts) (name : Str) : Option (List Str) :=
 def variants (o : Opts) (name : Str) : Option (List (Str × Str)) :=
   (baseNames o name).map fun fs => fs.flatMap (fun x => o.exts.map (fun y => (x, x ++ y)))
 
+/-- `FileReader.loadIndex`: one line of `.index` split at white space; a line that does not hold two fields maps
+nothing (since repair 6ddf549 in /repo; it used to raise ValueError), fields beyond the second are ignored -/
+def indexLine (fields : List Str) : Option (Str × Str) :=
+  match fields with
+  | a :: b :: _ => some (a, b)
+  | _ => none
+
+/-- the pairs `dict()` is built from, in file order -/
+def loadIndex (lines : List (List Str)) : List (Str × Str) := lines.filterMap indexLine
+
+/-- `dict` lookup over pairs in file order: the last line for a name is the one that counts -/
+def indexLookup (index : List (Str × Str)) (name : Str) : Option Str :=
+  ((index.filter (fun e => e.1 == name)).getLast?).map (·.2)
+
 /-- `FileReader.getMibVariants`: an `.index` entry takes precedence -/
 def fileVariants (o : Opts) (index : List (Str × Str)) (useIndex : Bool) (name : Str) :
     Option (List (Str × Str)) :=
-  match (if useIndex then index.find? (fun e => e.1 == name) else none) with
-  | some e => some [(name, e.2)]
+  match (if useIndex then indexLookup index name else none) with
+  | some f => some [(name, f)]
   | none => variants o name
 
 /-! ### directory tree lookup -/
@@ -165,5 +179,14 @@ def urlKind (scheme path : Str) : Kind :=
   else if scheme = "http".toList ∨ scheme = "https".toList then .http
   else if scheme = "ftp".toList ∨ scheme = "sftp".toList then .ftp
   else .unsupported
+
+/-- the path a local reader is made for: with the scheme `zip` the archive may be named where a host would stand
+(`zip://mymibs.zip`, the form the documentation gives); every other scheme takes the path component alone -/
+def urlPath (scheme netloc path : Str) : Str :=
+  if scheme = "zip".toList ∧ netloc ≠ [] then netloc ++ path else path
+
+/-- reader kind and, for the local kinds, the path it is made for -/
+def urlTarget (scheme netloc path : Str) : Kind × Str :=
+  (urlKind scheme (urlPath scheme netloc path), urlPath scheme netloc path)
 
 end Pysmi.Reader
